@@ -515,6 +515,16 @@ def run_c12(tier, seed, replay=None):
         k = len(cases)
         cases.append(mk_case([], ["q", "r"], [["for", "e", ["list"] + elems] + body], explicit_of=k + 1))
         cases.append(mk_case([], ["q", "r"], [subst_goal(b, "e", x) for x in elems for b in body]))
+    # bodies that can never succeed for some (or every) element - a literal false among the body goals: the loop has no answers,
+    # like the explicit conjunction, wherever in the collection that happens
+    for _ in range(n // 4):
+        elems = [rnd.choice([1, 2, "q", "r", ["list", "q"]]) for _ in range(rnd.randint(1, 4))]
+        body = rnd.choice([["false"], [["eq", "e", 1], "false"], ["false", ["eq", "e", 1]], [["conj", ["neq", "e", 3], "false"]],
+                           [["eq", "q", "e"], ["conj", "false"]]])
+        pre = [["eq", "r", 5]] if rnd.random() < 0.3 else []
+        k = len(cases)
+        cases.append(mk_case([], ["q", "r"], pre + [["for", "e", ["list"] + elems] + body], explicit_of=k + 1))
+        cases.append(mk_case([], ["q", "r"], pre + [subst_goal(b, "e", x) for x in elems for b in body]))
     return pcheck.run_check("C12", tier, seed, cases, "exact", oracle_c12, cone=CONE_D, replay=replay,
         rule="for e in [t1..tn] { body } (n = 0..4; ground, partial and shared-variable elements; bodies of ==, !=, conde, fresh, member over e "
              "and the query variables) against the explicit conjunction of the instantiated bodies, as answer multisets (ground-instance sets "
@@ -599,6 +609,16 @@ def run_c22(tier, seed, replay=None):
                            ["eq", val, "y"], ["eq", ["list", val, val], ["list", "x", "y"]]])
         goals = [["fresh", ["x", "y", "z"], alias, ["probe", "a"], late, ["probe", "b"], ["eq", "q", ["list", "x", "y"]], ["probe", "end"]]]
         cases.append(mk_case([], ["q", "r"], goals))
+    # ONE constraint goal value solved twice on the same path while its first constraint is still stored (goal values are
+    # cheap clones): every posting stores a constraint of its own and fires with_constraint once
+    for _ in range(n // 4):
+        lo, hi = rnd.randint(-1, 1), rnd.randint(2, 4)
+        g = rnd.choice([["rel", "diseqfd", "q", "r"], ["rel", "ltefd", "q", "r"], ["rel", "plusfd", "q", "r", "t"], ["neq", "q", "r"],
+                        ["neq", ["list", "q", 1], ["list", "r", "t"]], ["rel", "diseqfd", "r", "q"]])
+        times = rnd.randint(2, 3)
+        goals = [["dom", ["list", "q", "r", "t"], ["i", lo, hi]], ["probe", "a"], ["reuse", times, g], ["probe", "b"],
+                 rnd.choice([["eq", "q", lo], ["eq", "r", hi], "true"]), ["probe", "end"]]
+        cases.append(mk_case([], ["q", "r", "t"], goals, fd=True, mode="bag"))
     return pcheck.run_check("C22", tier, seed, cases, "exact", oracle_c22, cone=["Proofs/HookProofs.vo", "Proofs/HookStream.vo", "Proofs/EngineProofs.vo"], replay=replay,
         rule="programs of ==, !=, conde, fresh and finite-domain constraints run with an instrumented User type; probe goals after the goals and "
              "at the end record, per lineage, the hook counters, the store size and the shape of the last extension; at every probe "
